@@ -96,6 +96,7 @@ func main() {
 		d, _ := os.MkdirTemp("", "govc")
 		*work = d
 	}
+	os.RemoveAll(*work)
 	to := *timeout
 	if to == 0 {
 		to = 10
